@@ -26,6 +26,7 @@ RULE = (
     "call changed the structure of the unfrozen twin"
 )
 ASSUMPTIONS = [
+    'close() is also probed on complexes that are not downward closed (made with the inherited public random_edge_shuffle; twins are deep copies because copy() closes a complex)',
     "structure = node set, edge set, members (tail/head); attribute setters are not structural and may succeed on a frozen network",
     "random_edge_shuffle is run with the global RNG re-seeded identically on both twins",
     "a public method for which no argument recipe exists and that needs arguments is counted as unprobed (never a violation)",
